@@ -9,12 +9,12 @@ def generate(T, tier):
         {"name": "c06::verdict_shape_10", "group": "main", "tier": "quick", "bounds": "link 2: verdict shape and stability under extension, all 10-byte buffers x nested slice pairs"},
         {"name": "c03::long", "group": "c03stub", "tier": "quick", "bounds": "link 2 for every L 0..=1023 (CRC stubbed)"},
         {"name": "c06::chunk_one_12", "group": "main", "tier": "quick", "bounds": "link 3: abstract streams of 12 positions, every L, one symbolic cut (inductive step)"},
-        {"name": "c06::chunk_two_12", "group": "main", "tier": "thorough", "bounds": "abstract streams of 12 positions, two symbolic cuts"},
+        {"name": "c06::chunk_two_12", "group": "main", "tier": "quick", "bounds": "abstract streams of 12 positions, two symbolic cuts"},
         {"name": "c06::chunk_bytes_12", "group": "main", "tier": "thorough", "bounds": "abstract streams of 12 positions, one-byte chunks"},
         {"name": "c06::chunk_one_18", "group": "main", "tier": "thorough", "bounds": "abstract streams of 18 positions, one cut"},
         {"name": "c06::chunk_one_24", "group": "main", "tier": "thorough", "bounds": "abstract streams of 24 positions, one cut"},
         {"name": "c06::chunk_two_18", "group": "main", "tier": "thorough", "bounds": "abstract streams of 18 positions, two cuts"},
-        {"name": "c06::real_small_7", "group": "main", "tier": "quick", "bounds": "direct: real scanner on all 7-byte streams x every cut"},
+        {"name": "c06::real_small_7", "group": "main", "tier": "thorough", "bounds": "direct: real scanner on all 7-byte streams x every cut"},
     ]
     return {
         "harnesses": hs,
